@@ -83,6 +83,8 @@ structure DSt where
   tbl : TyTable
   env : Env
   st : FSt
+  others : List FSt := []     -- the other live schemas (copy / use)
+  cur : Nat := 0
 
 def emptyF : FSt := ⟨coreOfMapping (.node []), [], []⟩
 
@@ -114,8 +116,8 @@ def handle (D : DSt) (line : String) : Except String (DSt × String) := do
                        visEmpty := match vis with | none => true | some v => v.isEmptyDict,
                        vis := match vis with | none => fun _ => none | some v => visOf v }
     match fInit env layouts raw normalize with
-    | .ok F => return ({ D with env := env, st := F }, "ok")
-    | .error e => return ({ D with env := env, st := emptyF }, showErr e)
+    | .ok F => return ({ D with env := env, st := F, others := [], cur := 0 }, "ok")
+    | .error e => return ({ D with env := env, st := emptyF, others := [], cur := 0 }, showErr e)
   | "add" =>
     let (d, n) ← dn
     let cm ← match j.getObjVal? "cols_str" with
@@ -135,6 +137,19 @@ def handle (D : DSt) (line : String) : Except String (DSt × String) := do
   | "has" =>
     let (d, n) ← dn
     run (.hasColumn d n (← tableArg) (← jCol (← j.getObjVal? "col")))
+  | "copy" =>
+    -- the world is `others` with the current schema spliced in at `cur`
+    let W : World := D.others.take D.cur ++ [D.st] ++ D.others.drop D.cur
+    match wCopy D.env layouts W D.cur (← (← j.getObjVal? "normalize").getBool?) with
+    | (W', none) => return ({ D with others := W'.eraseIdx D.cur }, "ok")
+    | (_, some e) => return (D, showErr e)
+  | "use" =>
+    let i ← (← j.getObjVal? "i").getNat?
+    let W : World := D.others.take D.cur ++ [D.st] ++ D.others.drop D.cur
+    match W[i]? with
+    | some F => return ({ D with st := F, others := W.eraseIdx i, cur := i }, "ok")
+    | none => throw "use: no such schema"
+  | "empty" => return (D, "bool " ++ toString (fEmpty D.st))
   | "find" =>
     run (.find (← jIdents (← j.getObjVal? "table")) (← (← j.getObjVal? "raise").getBool?)
       (← (← j.getObjVal? "ensure").getBool?))
@@ -149,4 +164,4 @@ partial def loop (h : IO.FS.Stream) (D : DSt) : IO Unit := do
 
 def main : IO Unit := do
   let env : Env := { f := asciiFns, ty := fun _ t => t, self := default, visEmpty := true, vis := fun _ => none }
-  loop (← IO.getStdin) ⟨[], env, emptyF⟩
+  loop (← IO.getStdin) { tbl := [], env := env, st := emptyF }
